@@ -23,12 +23,17 @@ REQUIRED = [
     "intermediate_eq", "exp_real", "log_exp", "Quat_inverse_mul_cancel", "log_r", "interP_r", "intermediate_defining", "interP_example",
     "intermediate_identity",
     "setRotationMod_spec", "setRotationMod_carries", "rotationMatrixMod_eq", "rotationMatrixMod_carries",
+    # aliasing: one object on both sides of the compound operators / passed twice
+    "Quat_mulAssign", "Quat_mulAssignSelf", "Quat_mulSelf", "Quat_mulAssignInverseSelf", "Quat_mulAssignConjSelf", "Quat_divAssignSelf",
+    "Quat_divSelf", "Quat_setAxisAngleAliasV", "Quat_rotateVectorAliasV", "Quat_slerpSame", "Quat_setRotationModAliasV", "Quat_div_self",
+    "slerp_same",
 ]
 
 # which residue checks speak about which generated function (for the failing-input search of a broken theorem)
 THEOREM_TO_RESIDUE = [
     (r"rotate|mulQuat|mulM33|mulM44|multDir", ["rotate-forms-agree"]),
     (r"toMatrix33_mul|toMatrix44_mul", ["matrix-of-product"]),
+    (r"mulAssign|mulSelf|divAssignSelf|divSelf|div_self|AliasV", ["alias-product", "alias-quotient", "alias-vector-part"]),
     (r"inverse|invert|conj|Quat_mul|Quat_div", ["mul-inverse-identity", "matrix-of-product"]),
     (r"orthonormal|_det|rotation", ["orthonormal"]),
     (r"extractQuat", ["extractQuat"]),
@@ -80,6 +85,7 @@ def residue(chk, binary, n):
             "direction-pair:angle=180-1e-k", "direction-pair:exactly-opposite",
             "slerp-pair:theta=180-1e-k(k=7..15)", "slerp-pair:bitwise-antipodal(q2=-q1)",
             "exp-log:real-part-in(-1+64eps,-0.9)", "axis-class:tiny(length2-underflows)",
+            "alias-class:q*=q,q=q*q,q*=~q,q/=q,q=q/q,q*=q.inverse()", "alias-class:q.setAxisAngle(q.v,a),q.v=q.rotateVector(q.v)",
             # tiny-angle branches (mirrors of the code's tests)
             "sinx_over_x(a):tiny-branch", "sinx_over_x(a):sin(x)/x", "sinx_over_x(t*a):tiny-branch", "log-branch:theta==0", "log-branch:theta/sin(theta)",
             "exp-branch:guard(k=1,theta==0)", "exp-branch:sin(theta)/theta",
@@ -188,7 +194,7 @@ def run(chk):
             troute.tv(chk, bins["sym_c10c"], "c10c", 2000 if chk.thorough else 400, idx_deps=[leaf_index, c10_index])
             # emitted text of setRotationMod / rotationMatrixMod at Rat; normalized / setRotationInternal are the real templates at exact fractions
             troute.lean_tv(chk, bins["sym_c10c"], "c10c", indexc, n=24 if chk.thorough else 8, idx_deps=[leaf_index, c10_index])
-            _lean_tv_covers(chk, "c10c", ["C10.Quat.setRotationMod", "C10.rotationMatrixMod"])
+            _lean_tv_covers(chk, "c10c", ["C10.Quat.setRotationMod", "C10.rotationMatrixMod", "C10.Quat.setRotationModAliasV"])
             tv_directed(chk, bins["sym_c10c"], 3000 if chk.thorough else 600, [leaf_index, c10_index])
             index = index + indexc
 
